@@ -103,6 +103,17 @@ pub fn for_each_enc_call(tier: Tier, invalid: bool, over: bool, control: bool, f
         }
     }
     if over {
+        // long additional headers (where a header length kept in 8 bits would wrap) with little data
+        for hl in [240usize, 247, 248, 249, 250, 251, 254, 255, 256, 257, 258, 259, 260, 262, 300, 511, 512, 513, 768, 65_535, 65_536, 65_537] {
+            for dl in [0usize, 1, 5] {
+                let h = Some(vec![0x6B; hl]);
+                let d = vec![0xB6; dl];
+                f(TraitControl { half: Half::Req, header: h.clone(), data: d.clone() });
+                f(TraitPci { half: Half::Resp, header: h.clone(), data: d.clone() });
+                f(TraitIana { half: Half::Req, header: h.clone(), data: d.clone() });
+                f(TraitSpdm { half: Half::Resp, secured: dl & 1 == 0, header: h, data: d });
+            }
+        }
         // bodies around 2^16 (where a byte count kept in 16 bits would wrap)
         for n in (65_500usize..=65_830).step_by(3) {
             f(ReqVendor { format: 0, data: 0x1234, numeric: 0, msg: vec![0x5A; n] });
